@@ -529,6 +529,33 @@ func c10ExtendTail(c *Ctx, m *Module, rule string) {
 			"the only file mutation of extend is writing the 4 reserved zero bytes at the end of the target page, and only when the file is shorter (truncating or writing elsewhere can destroy another writer's records): "+detail)
 	}
 	r.Check(rule, "extend/has the tail write", m.Pos(ext.Pos()), n == 1, fmt.Sprintf("%d file mutations in extend", n))
+	// openMapped initialises a short file: the opener may write the header it built (at 0)
+	// and the 4 reserved zero bytes at the tail of the first page — nothing in between, because
+	// another process that saw the file first may already have records there
+	om := m.Func("internal/counter", "openMapped")
+	nw := 0
+	for _, e := range directEffects(om) {
+		if e.Kind != effFS || e.Name == "os.OpenFile" || e.Name == "(*os.File).Close" {
+			continue
+		}
+		nw++
+		ok := e.Name == "(*os.File).WriteAt"
+		detail := e.Name
+		if ok {
+			a := e.Call.Common().Args
+			buf := describe(a[1])
+			off, isC := intConst(a[2])
+			minLen := int64(0)
+			fmt.Sscan(m.ConstVal("internal/counter", "minFileLen"), &minLen)
+			isHdr := strings.HasPrefix(buf, "internal/counter.mappedHeader(") && isC && off == 0
+			isTail := strings.Contains(buf, ".zero") && isC && off == minLen-4
+			ok = isHdr || isTail
+			detail = fmt.Sprintf("WriteAt(%s, %d) header-at-0:%v zero-tail:%v", shortDesc(buf), off, isHdr, isTail)
+		}
+		r.Check(rule, "openMapped/file write "+e.Name, m.Pos(e.Call.Pos()), ok,
+			"initialising a new file may write only the header and the reserved tail word (a page-sized write wipes records another first opener has already linked): "+detail)
+	}
+	r.Check(rule, "openMapped/initialisation writes enumerated", m.Pos(om.Pos()), nw == 2, fmt.Sprintf("%d file mutations in openMapped", nw))
 }
 
 // c10Limit: reservation CAS shape and the name cap.
